@@ -1,5 +1,5 @@
 ENGINES = [
- {"name": "tlc", "path": "lib/vlib.py", "serves_properties": ["C01", "C02", "C04", "C05", "C07", "C08", "C09", "C10", "C14", "C15", "C17"],
+ {"name": "tlc", "path": "lib/vlib.py", "serves_properties": ["C01", "C02", "C03", "C04", "C05", "C07", "C08", "C09", "C10", "C11", "C12", "C14", "C15", "C16", "C17"],
   "kind_free_text": "TLC model checking of the TLA+ specifications in spec/, and TLC validation (fold mode) of executions recorded from the real code by the harnesses in harness/"},
 ]
 NOTES = ("One orchestrator (bin/vcheck) per property. Specifications live in spec/ (Word, HexISA, ...); harnesses in harness/ are "
@@ -70,4 +70,27 @@ CHECKS = {
   "text": "The finite invocation space (tool x source class x -o spelling x position x pre-existing target; exit values for xrun/hexsim) is "
           "enumerated completely by TLC and each shape (with several source representatives per class) is executed against the built tools.",
   "note": "Exhaustive over the modelled space only; representatives stand for source classes."},
+ "C03": {"level": "model_checking", "design_ref": "DESIGN.md 2.2, 5 (C03)",
+  "technique": "TLC refinement check HexRTL => HexISA at reduced widths (exhaustive) + TLC validation of Verilated processor.sv clocks and whole runs against HexISA",
+  "text": "The truncated adders of the RTL agree with 32-bit wrap-around arithmetic inside the common range: decided exhaustively by TLC on the "
+          "register-transfer specification at scaled widths, and bound to the Verilated code per clock (grid, sequences) and per run (one "
+          "instruction per clock from reset, registers after every clock).",
+  "note": "Trusts Verilator's translation and HexRTL's reading of processor.sv (cross-checked: every recorded clock conforms to HexRTL). "
+          "System calls in whole runs are serviced by the harness shim."},
+ "C11": {"level": "exploration", "design_ref": "DESIGN.md 2.5, 5 (C11)",
+  "technique": "TLC validation of observation histories against Determinism.tla (key = source text)",
+  "text": "Sources are compiled/assembled in one process in several orders with dirtied heaps under MALLOC_PERTURB_, and through the "
+          "executables under environment padding / ASLR toggling; any two observations of one source must be byte-identical.",
+  "note": "Exploration: only the configurations tried. Stack-content dependence is provoked only by preceding compilations in the same process."},
+ "C12": {"level": "model_checking", "design_ref": "DESIGN.md 2.5, 5 (C12)",
+  "technique": "TLC validation of hexsim runs against HexISA (unwritten memory = 0 by definition) + Determinism.tla histories over host-memory states, -t and --max-cycles",
+  "text": "Every run (images that read words they never wrote included) under dirty/clean placement, MALLOC_PERTURB_, -t and cycle limits is "
+          "compared with the HexISA behaviour after the same number of instructions, and all observations of one (image, input, options) key must agree.",
+  "note": "How many instructions --max-cycles N admits is not judged. Executable-level input consumption is not observed."},
+ "C16": {"level": "model_checking", "design_ref": "DESIGN.md 2.2, 5 (C16)",
+  "technique": "TLC validation of three Verilated builds against HexRTL on identical stimulus + byte-identity of their records + text identity of the two .v copies",
+  "text": "processor.sv, verilog/processor.v and synth/processor.v are stepped stand-alone on identical stimulus (all 256 bytes, out-of-range "
+          "states, free read data, reset pulses) and substituted under the same hex.sv/memory.sv on whole programs; records must be identical "
+          "and every clock conforms to HexRTL.",
+  "note": "Verilog text only (yosys flow not executed). HexRTL disagreement common to all builds is drift, not a violation."},
 }
